@@ -19,7 +19,7 @@ pub struct TP { pub s: String, pub p: String, pub o: String }
 #[derive(Serialize, Deserialize, Clone, Debug)]
 pub enum Elem {
     Bgp(Vec<TP>), Graph { g: String, bgp: Vec<TP> }, Union(Vec<Elem>, Vec<Elem>), Filter(String), Bind { expr: String, var: String },
-    Values { var: String, vals: Vec<Option<String>> }, Sub { distinct: bool, vars: Vec<String>, body: Vec<Elem>, order: bool, limit: Option<usize> },
+    Values { var: String, vals: Vec<Option<String>> }, ValuesN { vars: Vec<String>, rows: Vec<Vec<Option<String>>> }, GraphF { g: String, bgp: Vec<TP>, filter: String }, Sub { distinct: bool, vars: Vec<String>, body: Vec<Elem>, order: bool, limit: Option<usize> },
 }
 #[derive(Serialize, Deserialize, Clone, Debug)]
 pub struct QSpec { pub vars: Vec<String>, pub distinct: bool, pub body: Vec<Elem>, pub order: bool, pub limit: Option<usize>, pub from: Vec<String>, pub from_named: Vec<String>, pub agg: Option<(String, String, String)> }
@@ -42,6 +42,8 @@ fn render_elems(es: &[Elem], r: &mut Option<Rng>) -> String {
             Elem::Filter(f) => s.push_str(&format!("FILTER ({}) ", f)),
             Elem::Bind { expr, var } => s.push_str(&format!("BIND({} AS {}) ", expr, var)),
             Elem::Values { var, vals } => s.push_str(&format!("VALUES {} {{ {} }} ", var, vals.iter().map(|v| v.clone().unwrap_or("UNDEF".into())).collect::<Vec<_>>().join(" "))),
+            Elem::ValuesN { vars, rows } => s.push_str(&format!("VALUES ({}) {{ {} }} ", vars.join(" "), rows.iter().map(|r| format!("({})", r.iter().map(|v| v.clone().unwrap_or("UNDEF".into())).collect::<Vec<_>>().join(" "))).collect::<Vec<_>>().join(" "))),
+            Elem::GraphF { g, bgp, filter } => s.push_str(&format!("GRAPH {} {{ {} FILTER ({}) }} ", g, render_bgp(bgp, r), filter)),
             Elem::Sub { distinct, vars, body, order, limit } => s.push_str(&format!("{{ SELECT {}{} WHERE {{ {} }}{}{} }} ", if *distinct { "DISTINCT " } else { "" }, vars.join(" "), render_elems(body, r), if *order { format!(" ORDER BY {}", vars.join(" ")) } else { String::new() }, limit.map(|l| format!(" LIMIT {}", l)).unwrap_or_default())),
         }
     }
@@ -103,12 +105,15 @@ fn gen_group(r: &mut Rng, cfg_bits: u64, v: &Voc, depth: u32) -> Vec<Elem> {
     if cfg_bits & 8 != 0 && !mv.is_empty() && r.chance(1, 2) { let x = r.pick(&mv).clone(); let f = match r.below(4) { 0 => format!("{} != {}", x, v.n(r)), 1 => format!("{} = {}", x, v.n(r)), 2 if mv.len() > 1 => format!("{} != {}", x, r.pick(&mv)), _ => format!("{} != \"v1\"", x) }; out.push(Elem::Filter(f)); }
     if cfg_bits & 16 != 0 && !mv.is_empty() && r.chance(1, 2) { let x = r.pick(&mv).clone(); out.push(Elem::Bind { expr: format!("CONCAT({}, \"-x\")", x), var: "?bound".to_string() }); }
     if cfg_bits & 32 != 0 && r.chance(1, 2) { let var = if r.chance(2, 3) && !mv.is_empty() { r.pick(&mv).clone() } else { "?val".to_string() }; let vals = (0..(1 + r.usize(3))).map(|_| if r.chance(1, 5) { None } else { Some(v.n(r)) }).collect(); out.push(Elem::Values { var, vals }); }
+    if cfg_bits & 512 != 0 && mv.len() >= 2 && r.chance(1, 2) { let a = mv[0].clone(); let b = mv[1].clone(); let rows = (0..(1 + r.usize(3))).map(|_| vec![if r.chance(1, 4) { None } else { Some(v.n(r)) }, if r.chance(1, 4) { None } else { Some(v.n(r)) }]).collect(); out.push(Elem::ValuesN { vars: vec![a, b], rows }); }
+    if cfg_bits & 1024 != 0 && r.chance(1, 2) { let g = if r.chance(1, 2) { "?g".to_string() } else { format!("<http://e/g{}>", r.below(3)) }; let kk = 1 + r.usize(2); let b = gen_bgp(r, v, &vars, kk, 0); let bv = vars_of(&b); if !bv.is_empty() { let x = r.pick(&bv).clone(); let f = format!("{} != {}", x, v.n(r)); out.push(Elem::GraphF { g, bgp: b, filter: f }); } }
     if cfg_bits & 64 != 0 && depth == 0 && r.chance(1, 2) { let ks = 1 + r.usize(2); let body = vec![Elem::Bgp(gen_bgp(r, v, &vars, ks, 0))]; let bv = match &body[0] { Elem::Bgp(b) => vars_of(b), _ => vec![] }; if !bv.is_empty() { let n = 1 + r.usize(bv.len()); let pv: Vec<String> = bv.into_iter().filter(|x| x != "?pv").take(n).collect(); if !pv.is_empty() { let order = r.chance(1, 2); out.push(Elem::Sub { distinct: r.chance(1, 2), vars: pv, body, order, limit: if order && r.chance(1, 2) { Some(1 + r.usize(4)) } else { None } }); } } }
     out
 }
 fn all_vars(es: &[Elem], out: &mut Vec<String>) {
     for e in es { match e {
         Elem::Bgp(b) => out.extend(vars_of(b)), Elem::Graph { g, bgp } => { if g.starts_with('?') { out.push(g.clone()); } out.extend(vars_of(bgp)); }
+        Elem::ValuesN { vars, .. } => out.extend(vars.iter().cloned()), Elem::GraphF { g, bgp, .. } => { if g.starts_with('?') { out.push(g.clone()); } out.extend(vars_of(bgp)); }
         Elem::Union(a, b) => { all_vars(a, out); all_vars(b, out); } Elem::Bind { var, .. } => out.push(var.clone()), Elem::Values { var, .. } => out.push(var.clone()), Elem::Sub { vars, .. } => out.extend(vars.iter().cloned()), Elem::Filter(_) => {}
     } }
 }
@@ -122,8 +127,9 @@ impl Prop for C02 {
     fn gen(&self, seed: u64, _i: u64, tier: Tier) -> PlanCase {
         let mut r = Rng::sub(seed, "workload"); let mut cfg = Rng::sub(seed, "swarm"); let mut vr = Rng::sub(seed, "variants");
         let big = cfg.chance(1, 5);
-        let v = Voc { nn: if big { 14 } else { 3 + r.below(6) }, np: 2 + r.below(3) };
-        let nq = if big { 150 + r.usize(250) } else { 5 + r.usize(70) };
+        let dense = !big && cfg.chance(1, 2); // few terms, many quads: most patterns have answers
+        let v = Voc { nn: if big { 14 } else if dense { 2 + r.below(2) } else { 3 + r.below(6) }, np: if dense { 2 } else { 2 + r.below(3) } };
+        let nq = if big { 150 + r.usize(250) } else if dense { 15 + r.usize(30) } else { 5 + r.usize(70) };
         let mut quads = vec![];
         for _ in 0..nq {
             let s = format!("http://e/n{}", r.below(v.nn)); let p = format!("http://e/p{}", r.below(v.np));
@@ -246,6 +252,8 @@ impl Prop for C02 {
                 Elem::Bgp(b) if b.len() > 1 => for x in shrink_vec(b) { if !x.is_empty() { push(Elem::Bgp(x)); } },
                 Elem::Graph { g, bgp } if bgp.len() > 1 => for x in shrink_vec(bgp) { if !x.is_empty() { push(Elem::Graph { g: g.clone(), bgp: x }); } },
                 Elem::Union(a, b) => { push(Elem::Union(a.clone(), vec![Elem::Bgp(vec![])])); for x in a { push(x.clone()); } for x in b { push(x.clone()); } }
+                Elem::ValuesN { vars, rows } if rows.len() > 1 => for x in shrink_vec(rows) { if !x.is_empty() { push(Elem::ValuesN { vars: vars.clone(), rows: x }); } },
+                Elem::GraphF { g, bgp, .. } => push(Elem::Graph { g: g.clone(), bgp: bgp.clone() }),
                 Elem::Values { var, vals } if vals.len() > 1 => for x in shrink_vec(vals) { if !x.is_empty() { push(Elem::Values { var: var.clone(), vals: x }); } },
                 _ => {}
             }
